@@ -327,7 +327,10 @@ func build(s Shape, ct geom.CoordinatesType, sup Supplier, idx *int) geom.Geomet
 type CellSupplier struct {
 	OX, OY float64
 	Scale  float64 // 0 means 1
-	k      int
+	// DistinctClose: the closing vertex of a ring repeats the first vertex's XY
+	// but carries its own Z/M tags (rings are closed in XY; payloads may differ).
+	DistinctClose bool
+	k             int
 }
 
 func (c *CellSupplier) Reset() { c.k = 0 }
@@ -363,7 +366,11 @@ func (c *CellSupplier) Prim(idx int, kind byte, ring int, n int) []geom.Coordina
 		for _, p := range pts {
 			out = append(out, mk(p[0], p[1]))
 		}
-		out = append(out, out[0])
+		if c.DistinctClose {
+			out = append(out, mk(pts[0][0], pts[0][1]))
+		} else {
+			out = append(out, out[0])
+		}
 		if n < 5 {
 			return out[:n] // short (invalid) ring
 		}
